@@ -7,6 +7,11 @@ def main():
     import z3
     assert z3.get_version_string().startswith('5.'), z3.get_version_string()
     assert os.path.exists('/usr/bin/cvc5')
+    import glob, importlib
+    for f in sorted(glob.glob(os.path.join(os.path.dirname(os.path.dirname(os.path.abspath(__file__))), 'specs', '*.py'))):
+        n = os.path.basename(f)[:-3]
+        if n != '__init__':
+            importlib.import_module('specs.' + n)      # every sidecar must be importable natively (replay needs it)
     from specs import wire as W
     vec = {0: '00', 127: '7f', 128: '8001', 16383: 'ff7f', 16384: '808001', 2097151: 'ffff7f', 2097152: '80808001',
            268435455: 'ffffff7f', 64: '40', 321: 'c102'}
@@ -22,6 +27,7 @@ def main():
     assert W.sSUBSCRIBE(10, [('a/b', 1)]).hex() == '8208000a0003612f6201'
     assert W.sUNSUBSCRIBE(10, ['a/b']).hex() == 'a207000a0003612f62'
     assert W.sPUBLISH(False, 1, False, 'a/b', 10, b'hi').hex() == '32090003612f62000a6869'
+    assert W.frames(W.sPUBACK(1) + W.sPINGRESP() + b'\x30') == [W.sPUBACK(1), W.sPINGRESP()] and W.rem(W.sPUBACK(1) + b'\x30') == b'\x30'
     print('selftest ok')
     return 0
 
